@@ -180,7 +180,7 @@ def run_assignment(args):
                 if k in rel.last_accessed and rel.last_accessed[k] is not before_last[k]:
                     problems.append(f"age of surviving key {k} changed")
             if problems:
-                v, model = c.inproc.check(c.pre + c.pc, want_model=True) if c.inproc else ('unknown', {})
+                v, model = c.model()
                 out['violations'].append(dict(problems=problems, kinds=kinds,
                                               model={k: str(x) for k, x in model.items() if x is not None},
                                               decisions=list(c.log)))
